@@ -354,6 +354,48 @@ def main(argv):
                                                    "searched_cases": searched + len(cases)})
             violations.append(f"VIOLATION property={pid} replay={path} no-failing-input-found")
 
+    # line coverage of the anchored source files on a sample of this run's cases (generator quality) ---------
+    line_cov = {}
+    try:
+        import coverage
+
+        from .common import REPO
+
+        files = [os.path.join(REPO, f) for f in fingerprint.anchors(pid)]
+        if files and cases:
+            import ast
+
+            cov = coverage.Coverage(include=files, data_file=None, config_file=False)
+            per_stream, sample = {}, []
+            for sname, c in zip(streams, cases):  # up to 40 cases of every stream
+                k = sname.split(":")[0]
+                if per_stream.get(k, 0) < 40:
+                    per_stream[k] = per_stream.get(k, 0) + 1
+                    sample.append(c)
+            cov.start()
+            try:
+                for c in sample[:600]:
+                    _impl_one(c)
+            finally:
+                cov.stop()
+            for f in files:
+                try:
+                    _, executable, _, missing, _ = cov.analysis2(f)
+                    # only lines inside function bodies count (module-level lines ran at import, before the measurement)
+                    body = set()
+                    for node in ast.walk(ast.parse(open(f).read())):
+                        if isinstance(node, (ast.FunctionDef, ast.AsyncFunctionDef)):
+                            for st in node.body:
+                                body.update(range(st.lineno, (st.end_lineno or st.lineno) + 1))
+                    ex = [l for l in executable if l in body]
+                    ms = [l for l in missing if l in body]
+                    line_cov[os.path.relpath(f, REPO)] = {"function_body_lines": len(ex), "executed": len(ex) - len(ms),
+                                                           "not_executed": ms[:40]}
+                except Exception:
+                    pass
+    except Exception as e:  # measurement only
+        line_cov = {"error": str(e)[:200]}
+
     # evidence ---------------------------------------------------------------------------------
     wall = time.time() - t0
     samples = []
@@ -387,6 +429,7 @@ def main(argv):
             "oracle_failures_model": len(model_failures),
             "known_finding_hits": {k: True for k in known_hits},
             "directed_search_cases": searched,
+            "anchored_line_coverage_sample": line_cov,
             "anchored_files_changed": moved,
             "escalated": bool(ctx.escalated),
         },
